@@ -13,7 +13,7 @@ import re
 import textwrap
 from typing import Any, Callable, Dict, List, Optional
 
-from .classtable import Ty, TBool, TInt, TReal, TStr, TDT, TVal, TNode, TSeq, TSet, TOpt, TEnum, TMap
+from .classtable import Ty, TBool, TInt, TReal, TStr, TDT, TVal, TNode, TSeq, TSet, TOpt, TEnum, TMap, TAbs, ABSTRACT_SORTS
 
 CONTRACTS: Dict[str, 'Contract'] = {}      # qualified name -> contract
 SPECS: Dict[str, 'SpecFn'] = {}            # name -> spec function
@@ -26,6 +26,8 @@ def parse_ty(s: str, ct) -> Ty:
     simple = {'Bool': TBool, 'Int': TInt, 'Real': TReal, 'Str': TStr, 'DT': TDT, 'Val': TVal}
     if s in simple:
         return simple[s]()
+    if s in ABSTRACT_SORTS:
+        return TAbs(s)
     m = re.fullmatch(r'(\w+)\[(.*)\]', s)
     if m:
         k, inner = m.group(1), m.group(2)
